@@ -6,5 +6,5 @@ import "verif/harness/rpckit"
 
 func main() {
 	rpckit.Main(rpckit.Focus{Comp: "rpcalike", Kind: "alike"},
-		"for three registrations (every handler outcome / small / no prompts and resources) every valid request and every parameter mutation with a well-formed envelope (string or integer id incl. 0, negative, 2^53, beyond 2^53) is sent to Streamable HTTP (stateful JSON, stateful SSE answers, stateless, sessions disabled), legacy SSE and stdio; the normalised outcome (result with lists sorted by name, or error code) must be equal on all six; each exchange is also one model line; non-trivial = a message was emitted")
+		"for three registrations (every handler outcome / small / no prompts and resources) every valid request and every parameter mutation with a well-formed envelope (string or integer id incl. 0, negative, 2^53, beyond 2^53) is sent to Streamable HTTP (stateful JSON, stateful SSE answers, stateless, sessions disabled), legacy SSE and stdio; the normalised outcome (result with lists sorted by name, or error code) must be equal on all six; the registrations and requests carry control characters, non-UTF-8 bytes and printf material; request sequences that overlap in time on one session (a call blocking until another request of the session releases it, bounded wait) must be answered alike on all six; each exchange is also one model line; non-trivial = a message was emitted")
 }
